@@ -24,7 +24,13 @@ package main
 //     continuation, early `return` = `some r`, `continue` / falling off the body = the recursive call,
 //     `break` = the continuation (see rangeStmt); `switch tag {…}` is an if-chain;
 //   * a function without results whose first parameter is a pointer returns that pointer (what the
-//     caller sees through it afterwards);
+//     caller sees through it afterwards); in general the pointer parameters a body assigns through
+//     (mutatedParams) are returned — alone when the function has no result, after its Go results otherwise;
+//   * a loop body that assigns through a pointer carries the pointee (or the pointer) like a conditional join;
+//   * a group may call the functions of the groups it depends on (groupDeps): their files are imported, a
+//     qualified callee is resolved through the imports of the caller's file; methods take their receiver as
+//     first parameter (fnSpec.recv);
+//   * `x.Logger.…(…)` calls are dropped, their receiver and arguments still evaluated for their dereferences;
 //   * what the model's values do not carry is a synthetic, universally quantified parameter:
 //     pointer identity (`samePtr`), nil-ness of an empty slice (`nilSlice`), each `time.Now()` (`wallNowN`).
 // Anything outside the subset makes the translator fail loudly (the tie is then reported broken).
@@ -184,7 +190,15 @@ func initTables() {
 	defStruct("GPod", "Name", "name", tStr(), "Namespace", "ns", tStr(), "CreationTimestamp", "creationTimestamp", tTime(),
 		"DeletionTimestamp", "deletionTimestamp", tPtr(tTime()),
 		"DeletionGracePeriodSeconds", "deletionGracePeriodSeconds", tPtr(tInt()),
-		"Spec", "spec", tStruct("GPodSpec"), "Status", "status", tStruct("GPodStatus"))
+		"Spec", "spec", tStruct("GPodSpec"), "Status", "status", tStruct("GPodStatus"), "Annotations", "annotations", smap)
+	// group Status: what strategy.Parameters / strategy.Result carry as far as manageCanaryPodFailures reads
+	// them, reconcile.Result, and the ExtendedDaemonsetSetting as far as its sort order reads it
+	defStruct("GParams", "Strategy", "strategy", tPtr(tStruct("Strategy")), "NewStatus", "newStatus", tPtr(tStruct("ERSStatus")))
+	defStruct("GResult", "IsFrozen", "isFrozen", tBool(), "IsPaused", "isPaused", tBool(), "PausedReason", "pausedReason", tStr(),
+		"IsUnpaused", "isUnpaused", tBool(), "IsFailed", "isFailed", tBool(), "FailedReason", "failedReason", tStr(),
+		"NewStatus", "newStatus", tPtr(tStruct("ERSStatus")))
+	defStruct("GReconcileResult", "Requeue", "requeue", tBool(), "RequeueAfter", "requeueAfter", tDur())
+	defStruct("Setting", "Name", "name", tStr(), "Namespace", "ns", tStr(), "CreationTimestamp", "creation", tTime())
 
 	namedTypes = map[string]Ty{
 		"ExtendedDaemonSet":                                 tStruct("GEds"),
@@ -220,6 +234,9 @@ func initTables() {
 		"ContainerStateTerminated":                          tStruct("GTerminated"),
 		"ContainerStateWaiting":                             tStruct("GWaiting"),
 		"ContainerStateRunning":                             tStruct("GRunning"),
+		"Parameters":                                        tStruct("GParams"),
+		"Result":                                            tStruct("GResult"),
+		"ExtendedDaemonsetSetting":                          tStruct("Setting"),
 	}
 }
 
@@ -228,6 +245,8 @@ type fnSpec struct {
 	group                  string
 	file, goName, leanName string
 	recvPkg                string // qualifier other packages use for it ("" = any)
+	// a method: the name of its receiver type (the receiver becomes the first parameter)
+	recv string
 	// name of a synthetic Bool parameter standing for pointer identity of two pointer arguments
 	ptrEq string
 }
@@ -246,6 +265,15 @@ type fnInfo struct {
 	needsNil bool
 	// number of synthetic wall-clock parameters
 	nowN int
+	// number of results the Go function declares (results = these, then the types of retParams)
+	nGo int
+	// pointer parameters (Go names) whose value after the call is returned next to the Go results: the
+	// pointer parameters the body assigns through (see mutatedParams)
+	retParams []string
+	// import alias -> directory under the repository (or the import path for foreign packages)
+	imports map[string]string
+	// translated only for its signature (a function of a group this group depends on)
+	external bool
 }
 
 type bind struct{ v, m string }
@@ -281,6 +309,8 @@ type tr struct {
 	needsNil bool
 	// number of `time.Now()` calls met in the current function (synthetic parameters wallNow1 …)
 	nowN int
+	// named types declared in the translated files (`type sortPodByNodeName []*corev1.Pod`)
+	localTypes map[string]ast.Expr
 }
 
 type loopCtx struct{ cont, brk func() string }
@@ -303,6 +333,26 @@ func (t *tr) fn(base string, qualified bool) (*fnInfo, bool) {
 		}
 	}
 	return found, found != nil
+}
+
+// resolve: a callee qualified by an import alias is looked up in the package that alias names in the
+// caller's file; otherwise (or when that package has no translated function of the name) as `fn`.
+func (t *tr) resolve(pkg, base string) (*fnInfo, bool) {
+	if pkg != "" && t.cur != nil {
+		if dir, ok := t.cur.imports[pkg]; ok {
+			if fi, ok := t.fns[dir+":"+base]; ok {
+				return fi, true
+			}
+		}
+	}
+	return t.fn(base, pkg != "")
+}
+
+func splitQual(name string) (string, string) {
+	if i := strings.Index(name, "."); i >= 0 {
+		return name[:i], name[i+1:]
+	}
+	return "", name
 }
 
 func (t *tr) push() {
@@ -336,8 +386,16 @@ func (t *tr) declare(n string, ty Ty) string {
 	}
 	t.used[n]++
 	switch ln {
-	case "at", "end", "open", "from", "to", "fun", "then", "do", "type", "instance", "class", "where", "with", "match", "in", "by", "have", "show":
+	case "at", "end", "open", "from", "to", "fun", "then", "do", "type", "instance", "class", "where", "with", "match", "in", "by", "have", "show",
+		"sec", "minute", "zeroTime", "isZeroTime", "goDiv", "findCond", "isCondTrue", "intVal", "resolveIntOrPercent":
 		ln += "'"
+	}
+	// a local must not hide a translated function the body may call (`cannotStart, reason = podUtils.CannotStart(pod)`)
+	for _, fi := range t.fns {
+		if fi.spec.leanName == ln {
+			ln += "'"
+			break
+		}
 	}
 	t.env[len(t.env)-1][n] = field{ln, ty}
 	return ln
@@ -364,6 +422,9 @@ func (t *tr) goType(e ast.Expr) Ty {
 		if ty, ok := namedTypes[x.Name]; ok {
 			return ty
 		}
+		if u, ok := t.localTypes[x.Name]; ok {
+			return t.goType(u)
+		}
 	case *ast.StarExpr:
 		return tPtr(t.goType(x.X))
 	case *ast.SelectorExpr:
@@ -373,6 +434,8 @@ func (t *tr) goType(e ast.Expr) Ty {
 				return tTime()
 			case "time.Duration", "metav1.Duration":
 				return tDur()
+			case "reconcile.Result":
+				return tStruct("GReconcileResult")
 			}
 			if ty, ok := namedTypes[x.Sel.Name]; ok {
 				return ty
@@ -467,6 +530,9 @@ func (t *tr) sel(v val, name string, n ast.Node) val {
 		if f, ok := sd.fields[name]; ok {
 			return val{binds: v.binds, term: v.term + "." + f.lean, ty: f.ty}
 		}
+		if name == "ObjectMeta" {
+			return v // the embedded metadata: its fields are the object's own
+		}
 	}
 	dieT("gotolean: unknown field %s of %+v at %s", name, v.ty, pos(n))
 	return val{}
@@ -484,10 +550,31 @@ func (t *tr) isPkg(e ast.Expr) (string, bool) {
 	case "time", "metav1", "datadoghqv1alpha1", "intstr", "intstrutil", "conditions", "ersconditions", "corev1", "v1alpha1", "v1", "strategy", "affinity":
 		return id.Name, true
 	}
+	if t.cur != nil {
+		if _, ok := t.cur.imports[id.Name]; ok {
+			return id.Name, true
+		}
+	}
 	return "", false
 }
 
 func (t *tr) constant(name string, n ast.Node) val {
+	if p, base := splitQual(name); p != "" && t.cur != nil && t.cur.imports[p] == "k8s.io/api/core/v1" {
+		switch base {
+		case "ConditionTrue":
+			return pure("\"True\"", tStr())
+		case "ConditionFalse":
+			return pure("\"False\"", tStr())
+		case "PodReady":
+			return pure("\"Ready\"", tStr())
+		case "PodFailed":
+			return pure("\"Failed\"", tStr())
+		case "PodScheduled":
+			return pure("\"PodScheduled\"", tStr())
+		case "PodReasonUnschedulable":
+			return pure("\"Unschedulable\"", tStr())
+		}
+	}
 	switch name {
 	case "time.Minute":
 		return pure("minute", tDur())
@@ -679,6 +766,9 @@ func (t *tr) binary(x *ast.BinaryExpr) val {
 		return val{binds: bs, term: "(decide (" + a.term + " " + op + " " + b.term + "))", ty: tBool()}
 	case token.ADD, token.SUB, token.MUL:
 		ty := a.ty
+		if ty.K == "str" && b.ty.K == "str" && x.Op == token.ADD {
+			return val{binds: bs, term: "(" + a.term + " ++ " + b.term + ")", ty: ty}
+		}
 		if ty.K == "int" {
 			ty = b.ty
 		}
@@ -731,6 +821,18 @@ func (t *tr) composite(x *ast.CompositeLit) val {
 		if len(x.Elts) == 0 {
 			return pure("[]", ty)
 		}
+	case "list":
+		var bs []bind
+		var es []string
+		for _, el := range x.Elts {
+			if _, ok := el.(*ast.KeyValueExpr); ok {
+				dieT("gotolean: keyed slice literal at %s", pos(x))
+			}
+			v := t.ex(el)
+			bs = append(bs, v.binds...)
+			es = append(es, v.term)
+		}
+		return val{binds: bs, term: "[" + strings.Join(es, ", ") + "]", ty: ty}
 	case "struct":
 		sd := structs[ty.N]
 		given := map[string]val{}
@@ -786,7 +888,16 @@ func (t *tr) call(x *ast.CallExpr) val {
 			vs, bs := args()
 			bs = append(append([]bind{}, recv.binds...), bs...)
 			m := f.Sel.Name
+			if recv.ty.K == "time" && len(vs) == 1 && vs[0].ty.K == "ptr" && vs[0].ty.E.K == "time" {
+				// (metav1.Time).Equal / Before take a *metav1.Time; only `&x` (never nil) is in the subset
+				if vs[0].pointee == nil {
+					dieT("gotolean: time method with a pointer argument other than &x at %s", pos(x))
+				}
+				vs[0] = *vs[0].pointee
+			}
 			switch {
+			case recv.ty.K == "time" && m == "Equal":
+				return val{binds: bs, term: "(" + recv.term + " == " + vs[0].term + ")", ty: tBool()}
 			case recv.ty.K == "time" && m == "Add":
 				return val{binds: bs, term: "(" + recv.term + " + " + vs[0].term + ")", ty: tTime()}
 			case recv.ty.K == "time" && m == "Sub":
@@ -836,13 +947,22 @@ func (t *tr) call(x *ast.CallExpr) val {
 	}
 	if name == "len" {
 		vs, bs := args()
+		if vs[0].ty.K == "str" {
+			return val{binds: bs, term: "(Go.strLen " + vs[0].term + ")", ty: tInt()}
+		}
 		if vs[0].ty.K != "list" {
 			dieT("gotolean: len of a non-slice at %s", pos(x))
 		}
 		return val{binds: bs, term: "(Int.ofNat (List.length " + vs[0].term + "))", ty: tInt()}
 	}
+	if name == "fmt.Sprintf" {
+		return t.sprintf(x)
+	}
+	if name == "metav1.NewTime" {
+		return t.ex(x.Args[0])
+	}
 	// translated functions
-	if fi, ok := t.fn(base, base != name); ok {
+	if fi, ok := t.resolve(splitQual(name)); ok {
 		vs, bs := args()
 		var as []string
 		for i, v := range vs {
@@ -855,6 +975,9 @@ func (t *tr) call(x *ast.CallExpr) val {
 		}
 		if fi.spec.ptrEq != "" {
 			dieT("gotolean: call of a function with a pointer-identity parameter at %s", pos(x))
+		}
+		if len(fi.retParams) > 0 && !fi.mutator {
+			dieT("gotolean: call of a function that assigns through several / later pointer arguments at %s", pos(x))
 		}
 		if fi.nowN > 0 {
 			dieT("gotolean: call of a function that reads the wall clock at %s", pos(x))
@@ -1001,8 +1124,21 @@ func (t *tr) assigned(list []ast.Stmt) []string {
 						set[r] = true
 					}
 				}
+			case *ast.IncDecStmt:
+				if r := root(s.X); r != "" {
+					if _, ok := t.lookup(r); ok {
+						set[r] = true
+					}
+				}
 			case *ast.ExprStmt:
 				if c, ok := s.X.(*ast.CallExpr); ok && len(c.Args) > 0 {
+					if isDeleteCall(c) {
+						if r := root(c.Args[0]); r != "" {
+							if _, ok := t.lookup(r); ok {
+								set[r] = true
+							}
+						}
+					}
 					if t.isMutatorCall(c) {
 						a := c.Args[0]
 						if u, ok := a.(*ast.UnaryExpr); ok && u.Op == token.AND {
@@ -1031,15 +1167,46 @@ func (t *tr) assigned(list []ast.Stmt) []string {
 }
 
 func (t *tr) isMutatorCall(c *ast.CallExpr) bool {
-	name := ""
-	switch f := c.Fun.(type) {
-	case *ast.Ident:
-		name = f.Name
-	case *ast.SelectorExpr:
-		name = f.Sel.Name
+	name := calleeName(c)
+	if name == "" {
+		return false
 	}
-	fi, ok := t.fn(name, false)
+	pkg, base := splitQual(name)
+	if pkg != "" {
+		if _, isLocal := t.lookup(pkg); isLocal {
+			return false // a method call on a local variable
+		}
+	}
+	fi, ok := t.resolve(pkg, base)
 	return ok && fi.mutator
+}
+
+// isLoggerCall: `params.Logger.Info(…)`, `logger.V(1).Info(…)`: no effect on the translated state; the
+// arguments are still evaluated (their dereferences can panic).  Returns the expression in front of
+// `.Logger` (dereferenced by the call), or nil for a plain local logger.
+func isLoggerCall(c *ast.CallExpr) (ast.Expr, bool) {
+	e := c.Fun
+	for {
+		switch x := e.(type) {
+		case *ast.SelectorExpr:
+			if x.Sel.Name == "Logger" {
+				return x.X, true
+			}
+			e = x.X
+		case *ast.CallExpr:
+			e = x.Fun
+		case *ast.Ident:
+			return nil, x.Name == "logger" || x.Name == "log"
+		default:
+			return nil, false
+		}
+	}
+}
+
+// isDeleteCall: the builtin `delete(m, k)`
+func isDeleteCall(c *ast.CallExpr) bool {
+	id, ok := c.Fun.(*ast.Ident)
+	return ok && id.Name == "delete" && len(c.Args) == 2
 }
 
 // a slot is one variable joined after a conditional or carried through a loop.  A pointer variable
@@ -1191,7 +1358,10 @@ func (t *tr) block(list []ast.Stmt, fall func() string) string {
 		if len(s.Results) == 0 {
 			return t.retVoid(s)
 		}
-		if len(s.Results) == 1 && len(t.cur.results) > 1 {
+		if len(s.Results) == 1 && t.cur.nGo > 1 {
+			if len(t.cur.retParams) > 0 {
+				dieT("gotolean: unsupported return at %s", pos(s))
+			}
 			// return f(…) of a function with several results
 			v := t.ex(s.Results[0])
 			if v.ty.K != "tuple" {
@@ -1211,6 +1381,10 @@ func (t *tr) block(list []ast.Stmt, fall func() string) string {
 				ts = append(ts, v.term)
 			}
 		}
+		for _, pn := range t.cur.retParams {
+			v := t.ex(&ast.Ident{Name: pn, NamePos: s.Pos()})
+			ts = append(ts, v.term)
+		}
 		out := ts[0]
 		if len(ts) > 1 {
 			out = "(" + strings.Join(ts, ", ") + ")"
@@ -1219,10 +1393,24 @@ func (t *tr) block(list []ast.Stmt, fall func() string) string {
 	case *ast.DeclStmt:
 		gd := s.Decl.(*ast.GenDecl)
 		var sb strings.Builder
-		for _, sp := range gd.Specs {
+		for i, sp := range gd.Specs {
 			vs := sp.(*ast.ValueSpec)
 			if len(vs.Values) > 0 {
-				dieT("gotolean: var with initialiser at %s", pos(s))
+				// `var x = e` / `var ( a = e1; b T; … )`: the initialised specs are `x := e` in source order
+				if vs.Type != nil || len(vs.Values) != len(vs.Names) {
+					dieT("gotolean: unsupported var declaration at %s", pos(s))
+				}
+				var lhs []ast.Expr
+				for _, n := range vs.Names {
+					lhs = append(lhs, n)
+				}
+				as := &ast.AssignStmt{Lhs: lhs, TokPos: vs.Pos(), Tok: token.DEFINE, Rhs: vs.Values}
+				var later []ast.Stmt
+				if i+1 < len(gd.Specs) {
+					later = append(later, &ast.DeclStmt{Decl: &ast.GenDecl{TokPos: gd.TokPos, Tok: gd.Tok, Specs: gd.Specs[i+1:]}})
+				}
+				later = append(later, list[1:]...)
+				return sb.String() + t.assign(as, func() string { return t.block(later, fall) })
 			}
 			ty := t.goType(vs.Type)
 			for _, n := range vs.Names {
@@ -1235,6 +1423,30 @@ func (t *tr) block(list []ast.Stmt, fall func() string) string {
 		return t.assign(s, rest)
 	case *ast.ExprStmt:
 		c, ok := s.X.(*ast.CallExpr)
+		if ok {
+			if recv, isLog := isLoggerCall(c); isLog {
+				var bs []bind
+				if recv != nil {
+					rv := t.ex(recv)
+					if rv.ty.K == "ptr" {
+						rv = t.deref(rv, c)
+					}
+					bs = append(bs, rv.binds...)
+				}
+				for _, a := range c.Args {
+					bs = append(bs, t.ex(a).binds...)
+				}
+				return wrap(bs, rest())
+			}
+			if isDeleteCall(c) {
+				m, k := t.ex(c.Args[0]), t.ex(c.Args[1])
+				if m.ty.K != "smap" {
+					dieT("gotolean: delete on something other than a string map at %s", pos(s))
+				}
+				bs := append(append([]bind{}, m.binds...), k.binds...)
+				return wrap(bs, t.assignPath(c.Args[0], "(SMap.erase "+m.term+" "+k.term+")", rest))
+			}
+		}
 		if !ok || !t.isMutatorCall(c) {
 			dieT("gotolean: unsupported expression statement at %s", pos(s))
 		}
@@ -1272,22 +1484,34 @@ func (t *tr) retVoid(n ast.Node) string {
 	if !t.cur.void {
 		dieT("gotolean: return without a value at %s", pos(n))
 	}
-	v := t.ex(t.cur.decl.Type.Params.List[0].Names[0])
-	return wrap(v.binds, "some "+v.term)
+	var ts []string
+	for _, pn := range t.cur.retParams {
+		ts = append(ts, t.ex(&ast.Ident{Name: pn, NamePos: n.Pos()}).term)
+	}
+	if len(ts) == 1 {
+		return "some " + ts[0]
+	}
+	return "some (" + strings.Join(ts, ", ") + ")"
 }
 
 // switchStmt: `switch tag { case a, b: …; default: … }` without fallthrough is the chain
 // `if tag == a || tag == b { … } else if … else { … }` with the tag evaluated once.
 func (t *tr) switchStmt(s *ast.SwitchStmt, rest func() string) string {
-	if s.Init != nil || s.Tag == nil {
+	if s.Init != nil {
 		dieT("gotolean: unsupported switch at %s", pos(s))
 	}
-	tag := t.ex(s.Tag)
-	tn := t.tmp("tag")
+	// `switch { case c1: … }` (no tag): the case expressions are the conditions themselves
+	var tag val
+	var tn string
+	var tagId *ast.Ident
 	t.push()
 	defer t.pop()
-	t.env[len(t.env)-1]["\x00"+tn] = field{tn, tag.ty}
-	tagId := &ast.Ident{Name: "\x00" + tn, NamePos: s.Tag.Pos()}
+	if s.Tag != nil {
+		tag = t.ex(s.Tag)
+		tn = t.tmp("tag")
+		t.env[len(t.env)-1]["\x00"+tn] = field{tn, tag.ty}
+		tagId = &ast.Ident{Name: "\x00" + tn, NamePos: s.Tag.Pos()}
+	}
 	var chain, last *ast.IfStmt
 	var deflt *ast.BlockStmt
 	for _, cc := range s.Body.List {
@@ -1304,7 +1528,10 @@ func (t *tr) switchStmt(s *ast.SwitchStmt, rest func() string) string {
 		}
 		var cond ast.Expr
 		for _, e := range c.List {
-			eq := &ast.BinaryExpr{X: tagId, OpPos: e.Pos(), Op: token.EQL, Y: e}
+			var eq ast.Expr = e
+			if tagId != nil {
+				eq = &ast.BinaryExpr{X: tagId, OpPos: e.Pos(), Op: token.EQL, Y: e}
+			}
 			if cond == nil {
 				cond = eq
 			} else {
@@ -1330,6 +1557,9 @@ func (t *tr) switchStmt(s *ast.SwitchStmt, rest func() string) string {
 			last.Else = deflt
 		}
 		out = t.block([]ast.Stmt{chain}, rest)
+	}
+	if tagId == nil {
+		return out
 	}
 	return wrap(tag.binds, "let "+tn+" : "+tag.ty.lean()+" := "+tag.term+"\n"+out)
 }
@@ -1381,12 +1611,9 @@ func (t *tr) rangeStmt(s *ast.RangeStmt, rest func() string) string {
 	if r := rootOf(s.X); r != "" && isCarried[r] {
 		dieT("gotolean: the loop at %s assigns to the slice it ranges over", pos(s))
 	}
+	// a pointer variable the body assigns through is carried like in a conditional join: as its pointee when
+	// that already has a name, as the pointer itself otherwise
 	ss := t.slots(carried)
-	for _, sl := range ss {
-		if sl.ty.K == "ptr" || sl.viaAlias {
-			dieT("gotolean: the loop at %s assigns through the pointer %s", pos(s), sl.goName)
-		}
-	}
 	// captured locals: every other local the body mentions, in a fixed order
 	loopVar := map[string]bool{}
 	for _, e := range []ast.Expr{s.Key, s.Value} {
@@ -1542,6 +1769,15 @@ func relPos(n ast.Node) string {
 
 func (t *tr) assign(s *ast.AssignStmt, rest func() string) string {
 	define := s.Tok == token.DEFINE
+	if (s.Tok == token.ADD_ASSIGN || s.Tok == token.SUB_ASSIGN) && len(s.Lhs) == 1 && len(s.Rhs) == 1 {
+		// x += e is x = x + e (the left-hand side has no side effect in the subset)
+		op := token.ADD
+		if s.Tok == token.SUB_ASSIGN {
+			op = token.SUB
+		}
+		return t.assign(&ast.AssignStmt{Lhs: s.Lhs, TokPos: s.TokPos, Tok: token.ASSIGN,
+			Rhs: []ast.Expr{&ast.BinaryExpr{X: s.Lhs[0], OpPos: s.TokPos, Op: op, Y: s.Rhs[0]}}}, rest)
+	}
 	if s.Tok != token.DEFINE && s.Tok != token.ASSIGN {
 		dieT("gotolean: unsupported assignment operator at %s", pos(s))
 	}
@@ -1595,7 +1831,7 @@ func (t *tr) assign(s *ast.AssignStmt, rest func() string) string {
 		}
 		v := t.ex(c)
 		var tys []Ty
-		if fi, ok := t.fn(calleeBase(c), calleeBase(c) != calleeName(c)); ok {
+		if fi, ok := t.resolve(splitQual(calleeName(c))); ok {
 			tys = fi.results
 		} else if calleeName(c) == "intstrutil.GetValueFromIntOrPercent" {
 			tys = []Ty{tInt(), tPtr(tStr())}
@@ -1636,6 +1872,41 @@ func (t *tr) assign(s *ast.AssignStmt, rest func() string) string {
 		term = "none"
 	}
 	return wrap(v.binds, t.assignPath(s.Lhs[0], term, rest))
+}
+
+// sprintf: `fmt.Sprintf("… %s …", a, b)` with string arguments only is the concatenation.
+func (t *tr) sprintf(x *ast.CallExpr) val {
+	lit, ok := x.Args[0].(*ast.BasicLit)
+	if !ok || lit.Kind != token.STRING {
+		dieT("gotolean: Sprintf with a format that is not a literal at %s", pos(x))
+	}
+	format, err := strconv.Unquote(lit.Value)
+	if err != nil {
+		dieT("gotolean: bad format at %s", pos(x))
+	}
+	parts := strings.Split(format, "%s")
+	if len(parts) != len(x.Args) || strings.Contains(strings.Join(parts, ""), "%") {
+		dieT("gotolean: Sprintf with verbs other than %%s at %s", pos(x))
+	}
+	var bs []bind
+	var ts []string
+	for i, p := range parts {
+		if p != "" {
+			ts = append(ts, strconv.Quote(p))
+		}
+		if i+1 < len(x.Args) {
+			v := t.ex(x.Args[i+1])
+			if v.ty.K != "str" {
+				dieT("gotolean: Sprintf %%s of a non-string at %s", pos(x))
+			}
+			bs = append(bs, v.binds...)
+			ts = append(ts, v.term)
+		}
+	}
+	if len(ts) == 0 {
+		return val{binds: bs, term: "\"\"", ty: tStr()}
+	}
+	return val{binds: bs, term: "(" + strings.Join(ts, " ++ ") + ")", ty: tStr()}
 }
 
 func calleeName(c *ast.CallExpr) string {
@@ -1863,7 +2134,7 @@ func (t *tr) translate(fi *fnInfo) string {
 	t.push()
 	var ps []string
 	fi.params = nil
-	for _, p := range fi.decl.Type.Params.List {
+	for _, p := range paramFields(fi.decl) {
 		ty := t.goType(p.Type)
 		for _, n := range p.Names {
 			ln := t.declare(n.Name, ty)
@@ -1909,6 +2180,89 @@ func (t *tr) translate(fi *fnInfo) string {
 		sb.WriteString("  " + l + "\n")
 	}
 	return sb.String()
+}
+
+// paramFields: the receiver (of a method) followed by the parameters
+func paramFields(d *ast.FuncDecl) []*ast.Field {
+	var out []*ast.Field
+	if d.Recv != nil {
+		out = append(out, d.Recv.List...)
+	}
+	return append(out, d.Type.Params.List...)
+}
+
+// mutatedParams lists the pointer parameters (Go names, in parameter order) the body assigns through:
+// `p.F = v`, `p.F[i] = v`, `delete(p.M, k)`, `p.N += v`, or a call of a function that mutates its first
+// argument with `p`, `p.F` or `&p.F` as that argument.
+func (t *tr) mutatedParams(fi *fnInfo) []string {
+	isPtr := map[string]bool{}
+	var order []string
+	for _, p := range paramFields(fi.decl) {
+		if _, ok := p.Type.(*ast.StarExpr); ok {
+			for _, n := range p.Names {
+				isPtr[n.Name] = true
+				order = append(order, n.Name)
+			}
+		}
+	}
+	hit := map[string]bool{}
+	var root func(e ast.Expr) string
+	root = func(e ast.Expr) string {
+		for {
+			switch x := e.(type) {
+			case *ast.SelectorExpr:
+				e = x.X
+			case *ast.StarExpr:
+				e = x.X
+			case *ast.ParenExpr:
+				e = x.X
+			case *ast.IndexExpr:
+				e = x.X
+			case *ast.UnaryExpr:
+				e = x.X
+			case *ast.Ident:
+				return x.Name
+			default:
+				return ""
+			}
+		}
+	}
+	saved := t.cur
+	t.cur = fi
+	defer func() { t.cur = saved }()
+	ast.Inspect(fi.decl.Body, func(m ast.Node) bool {
+		switch s := m.(type) {
+		case *ast.AssignStmt:
+			for _, l := range s.Lhs {
+				if _, plain := l.(*ast.Ident); plain {
+					continue
+				}
+				hit[root(l)] = true
+			}
+		case *ast.IncDecStmt:
+			if _, plain := s.X.(*ast.Ident); !plain {
+				hit[root(s.X)] = true
+			}
+		case *ast.ExprStmt:
+			if c, ok := s.X.(*ast.CallExpr); ok && len(c.Args) > 0 {
+				if isDeleteCall(c) {
+					hit[root(c.Args[0])] = true
+				} else if name := calleeName(c); name != "" {
+					if callee, ok := t.resolve(splitQual(name)); ok && callee.mutator {
+						hit[root(c.Args[0])] = true
+					}
+				}
+			}
+		}
+		return true
+	})
+	var out []string
+	for _, n := range order {
+		if hit[n] {
+			out = append(out, n)
+		}
+	}
+	return out
 }
 
 var decisionFns = []fnSpec{
@@ -1966,6 +2320,19 @@ var decisionFns = []fnSpec{
 	{group: "Conds", file: podFile, goName: "PendingCreate", leanName: "pendingCreate"},
 	{group: "Conds", file: "controllers/extendeddaemonsetreplicaset/controller.go", goName: "retrieveReplicaSetStatus", leanName: "retrieveReplicaSetStatus"},
 	{group: "Conds", file: "controllers/extendeddaemonset/controller.go", goName: "isCanaryActive", leanName: "isCanaryActive"},
+	// group Status: the canary failure evaluation of the replica-set controller, the status functions of the
+	// ExtendedDaemonSet controller, and small pure helpers.  Calls into the groups Canary and Conds.
+	{group: "Status", file: ersCondFile, goName: "BoolToCondition", leanName: "boolToCondition"},
+	{group: "Status", file: "controllers/extendeddaemonsetreplicaset/strategy/canary.go", goName: "manageCanaryPodFailures", leanName: "manageCanaryPodFailures"},
+	{group: "Status", file: "controllers/extendeddaemonset/controller.go", goName: "manageCanaryStatusConditions", leanName: "manageCanaryStatusConditions"},
+	{group: "Status", file: "controllers/extendeddaemonset/controller.go", goName: "manageStatus", leanName: "manageStatus"},
+	{group: "Status", file: "controllers/extendeddaemonset/controller.go", goName: "clearCanaryAnnotations", leanName: "clearCanaryAnnotations"},
+	{group: "Status", file: "controllers/extendeddaemonsetreplicaset/filters.go", recv: "sortPodByNodeName", goName: "Less", leanName: "sortPodByNodeNameLess"},
+	{group: "Status", file: "controllers/extendeddaemonsetsetting/utils.go", recv: "edsNodeByCreationTimestampAndPhase", goName: "Less", leanName: "edsNodeByCreationTimestampAndPhaseLess"},
+	{group: "Status", file: "pkg/controller/utils/result.go", goName: "MergeResult", leanName: "mergeResult"},
+	{group: "Status", file: "pkg/controller/utils/list.go", goName: "ContainsString", leanName: "containsString"},
+	{group: "Status", file: "controllers/extendeddaemonsetreplicaset/strategy/utils.go", goName: "manageUnscheduledPodNodes", leanName: "manageUnscheduledPodNodes"},
+	{group: "Status", file: "controllers/extendeddaemonsetreplicaset/strategy/utils.go", goName: "compareSpecTemplateMD5Hash", leanName: "compareSpecTemplateMD5Hash"},
 }
 
 const (
@@ -1974,7 +2341,11 @@ const (
 	podFile     = "pkg/controller/utils/pod/pod.go"
 )
 
-var decisionGroups = []string{"Canary", "Cleanup", "Defaults", "SlowStart", "Conds"}
+var decisionGroups = []string{"Canary", "Cleanup", "Defaults", "SlowStart", "Conds", "Status"}
+
+// groups whose functions a group calls: their generated files are imported, and their functions are
+// translated again here only for their signatures (a failure there fails this group too)
+var groupDeps = map[string][]string{"Status": {"Canary", "Conds"}}
 
 // genDecisions returns, per group, the content of EdsModel/Generated/Dec<group>.lean.  A group
 // the translator cannot express yields a file that does not compile (and says why), so that only
@@ -1987,9 +2358,28 @@ func genDecisions(repo string) map[string]string {
 	return out
 }
 
+const repoModule = "github.com/DataDog/extendeddaemonset/"
+
+// fileImports: import alias -> directory under the repository (in-repo packages) or import path
+func fileImports(f *ast.File) map[string]string {
+	out := map[string]string{}
+	for _, im := range f.Imports {
+		path, _ := strconv.Unquote(im.Path.Value)
+		alias := path[strings.LastIndex(path, "/")+1:]
+		if im.Name != nil {
+			alias = im.Name.Name
+		}
+		out[alias] = strings.TrimPrefix(path, repoModule)
+	}
+	return out
+}
+
 func genDecisionGroup(repo, group string) (content string) {
-	header := "import EdsModel.GoPrelude\n" +
-		"/- GENERATED by tools/extract (gotolean.go) from the Go sources under /repo — do not edit.\n" +
+	header := "import EdsModel.GoPrelude\n"
+	for _, d := range groupDeps[group] {
+		header += "import EdsModel.Generated.Dec" + d + "\n"
+	}
+	header += "/- GENERATED by tools/extract (gotolean.go) from the Go sources under /repo — do not edit.\n" +
 		"   `none` = the Go function panics (nil dereference, index out of range, division by zero). -/\n" +
 		"set_option linter.unusedVariables false\nnamespace Eds.Generated.Decisions\nopen Eds\n\n"
 	defer func() {
@@ -2004,64 +2394,140 @@ func genDecisionGroup(repo, group string) (content string) {
 		}
 	}()
 	initTables()
-	t := &tr{fns: map[string]*fnInfo{}, sets: map[string][]string{}}
+	t := &tr{fns: map[string]*fnInfo{}, sets: map[string][]string{}, localTypes: map[string]ast.Expr{}}
 	t.loadConsts(repo)
 	parsed := map[string]*ast.File{}
 	var setDefs []string
 	var order []*fnInfo
-	for _, sp := range decisionFns {
-		if sp.group != group {
-			continue
-		}
-		f, ok := parsed[sp.file]
-		if !ok {
-			f = parse(filepath.Join(repo, sp.file))
-			parsed[sp.file] = f
-			for _, n := range stringSets(f, t.sets) {
-				setDefs = append(setDefs, n)
+	isDep := map[string]bool{}
+	for _, d := range groupDeps[group] {
+		isDep[d] = true
+	}
+	// pass 1: the declarations (dependencies first, in their own order)
+	for pass := 0; pass < 2; pass++ {
+		for _, sp := range decisionFns {
+			if (pass == 0 && !isDep[sp.group]) || (pass == 1 && sp.group != group) {
+				continue
 			}
-		}
-		var decl *ast.FuncDecl
-		for _, d := range f.Decls {
-			if fd, ok := d.(*ast.FuncDecl); ok && fd.Recv == nil && fd.Name.Name == sp.goName {
-				decl = fd
-			}
-		}
-		if decl == nil {
-			dieT("gotolean: function %s not found in %s", sp.goName, sp.file)
-		}
-		fi := &fnInfo{spec: sp, decl: decl}
-		if decl.Type.Results != nil {
-			for _, r := range decl.Type.Results.List {
-				n := len(r.Names)
-				if n == 0 {
-					n = 1
+			f, ok := parsed[sp.file]
+			if !ok {
+				f = parse(filepath.Join(repo, sp.file))
+				parsed[sp.file] = f
+				names := stringSets(f, t.sets)
+				if pass == 1 {
+					setDefs = append(setDefs, names...)
 				}
-				for i := 0; i < n; i++ {
-					fi.results = append(fi.results, t.goType(r.Type))
+				for _, d := range f.Decls {
+					if gd, ok := d.(*ast.GenDecl); ok && gd.Tok == token.TYPE {
+						for _, s := range gd.Specs {
+							if ts, ok := s.(*ast.TypeSpec); ok {
+								if _, isStruct := ts.Type.(*ast.StructType); !isStruct {
+									if _, known := namedTypes[ts.Name.Name]; !known {
+										t.localTypes[ts.Name.Name] = ts.Type
+									}
+								}
+							}
+						}
+					}
 				}
 			}
-		}
-		// no result and a pointer first parameter: the function is what it does to that pointee
-		if len(fi.results) == 0 && len(decl.Type.Params.List) > 0 {
-			if _, ok := decl.Type.Params.List[0].Type.(*ast.StarExpr); ok {
+			var decl *ast.FuncDecl
+			for _, d := range f.Decls {
+				fd, ok := d.(*ast.FuncDecl)
+				if !ok || fd.Name.Name != sp.goName {
+					continue
+				}
+				if sp.recv == "" && fd.Recv == nil {
+					decl = fd
+				}
+				if sp.recv != "" && fd.Recv != nil && len(fd.Recv.List) == 1 && len(fd.Recv.List[0].Names) == 1 {
+					if id, ok := fd.Recv.List[0].Type.(*ast.Ident); ok && id.Name == sp.recv {
+						decl = fd
+					}
+				}
+			}
+			if decl == nil {
+				dieT("gotolean: function %s not found in %s", sp.goName, sp.file)
+			}
+			fi := &fnInfo{spec: sp, decl: decl, imports: fileImports(f), external: pass == 0}
+			if decl.Type.Results != nil {
+				for _, r := range decl.Type.Results.List {
+					n := len(r.Names)
+					if n == 0 {
+						n = 1
+					}
+					for i := 0; i < n; i++ {
+						fi.results = append(fi.results, t.goType(r.Type))
+					}
+				}
+			}
+			fi.nGo = len(fi.results)
+			params := paramFields(decl)
+			firstPtr := false
+			if len(params) > 0 {
+				_, firstPtr = params[0].Type.(*ast.StarExpr)
+			}
+			// no result and a pointer first parameter: the function is what it does to that pointee
+			if fi.nGo == 0 && firstPtr {
 				fi.void, fi.mutator = true, true
-				fi.results = []Ty{t.goType(decl.Type.Params.List[0].Type)}
+				fi.retParams = []string{params[0].Names[0].Name}
 			}
-		}
-		// mutator: pointer first parameter, single pointer result, last statement `return <param0>`
-		if len(fi.results) == 1 && fi.results[0].K == "ptr" && len(decl.Type.Params.List) > 0 && len(decl.Body.List) > 0 {
-			if _, ok := decl.Type.Params.List[0].Type.(*ast.StarExpr); ok {
-				p0 := decl.Type.Params.List[0].Names[0].Name
+			// mutator: pointer first parameter, single pointer result, last statement `return <param0>`
+			if fi.nGo == 1 && fi.results[0].K == "ptr" && firstPtr && len(decl.Body.List) > 0 {
+				p0 := params[0].Names[0].Name
 				if rs, ok := decl.Body.List[len(decl.Body.List)-1].(*ast.ReturnStmt); ok && len(rs.Results) == 1 {
 					if id, ok := rs.Results[0].(*ast.Ident); ok && id.Name == p0 {
 						fi.mutator = true
 					}
 				}
 			}
+			key := filepath.Dir(sp.file) + ":" + sp.goName
+			if sp.recv != "" {
+				key = filepath.Dir(sp.file) + ":" + sp.recv + "." + sp.goName
+			}
+			t.fns[key] = fi
+			order = append(order, fi)
 		}
-		t.fns[filepath.Dir(sp.file)+":"+sp.goName] = fi
-		order = append(order, fi)
+	}
+	// pass 2: the other pointer parameters a function assigns through are returned after its Go results
+	for _, fi := range order {
+		mut := t.mutatedParams(fi)
+		switch {
+		case fi.mutator && fi.nGo == 1:
+			// returns its first parameter itself
+			for _, m := range mut {
+				if m != paramFields(fi.decl)[0].Names[0].Name {
+					dieT("gotolean: %s returns its first parameter and mutates %s", fi.spec.goName, m)
+				}
+			}
+		case fi.void && fi.mutator:
+			for _, m := range mut {
+				if m != fi.retParams[0] {
+					fi.retParams = append(fi.retParams, m)
+					fi.mutator = false // callers of a function that mutates several arguments are outside the subset
+				}
+			}
+		default:
+			if fi.nGo == 0 {
+				if len(mut) == 0 {
+					dieT("gotolean: %s has no result and mutates nothing", fi.spec.goName)
+				}
+				fi.void = true
+			}
+			fi.retParams = mut
+		}
+		if !(fi.mutator && fi.nGo == 1) {
+			fi.results = fi.results[:fi.nGo]
+			for _, pn := range fi.retParams {
+				for _, p := range paramFields(fi.decl) {
+					for _, n := range p.Names {
+						if n.Name == pn {
+							fi.results = append(fi.results, t.goType(p.Type))
+						}
+					}
+				}
+			}
+		}
 	}
 	var sb strings.Builder
 	sb.WriteString(header)
@@ -2073,7 +2539,11 @@ func genDecisionGroup(repo, group string) (content string) {
 		fmt.Fprintf(&sb, "/-- the keys of the package-level set `%s`, in source order -/\ndef %s : List String :=\n  [%s]\n\n", n, n, strings.Join(qs, ", "))
 	}
 	for _, fi := range order {
-		sb.WriteString(t.translate(fi))
+		out := t.translate(fi)
+		if fi.external {
+			continue
+		}
+		sb.WriteString(out)
 		sb.WriteString("\n")
 	}
 	sb.WriteString("end Eds.Generated.Decisions\n")
